@@ -211,6 +211,20 @@ func c18HostileStrings(rng *rand.Rand, src string) string {
 	})
 }
 
+// c18OneLineBlocks folds blocks that hold a single simple statement onto one line
+// (`if c { > 1 }`), a layout the parser accepts like any other.
+var c18BlockRe = regexp.MustCompile(`\{\n[ \t]+([^\n{}#"]+)\n[ \t]*\}`)
+
+func c18OneLineBlocks(rng *rand.Rand, src string) string {
+	return c18BlockRe.ReplaceAllStringFunc(src, func(m string) string {
+		if rng.Intn(2) == 0 {
+			return m
+		}
+		sub := c18BlockRe.FindStringSubmatch(m)
+		return "{ " + strings.TrimSpace(sub[1]) + " }"
+	})
+}
+
 var c18DqRe = regexp.MustCompile(`"[^"\\\n]*"`)
 
 func c18Examples() []string {
@@ -269,7 +283,13 @@ type c18Params struct {
 
 func c18Laws(w *mon.W, label string, idx int, src string) {
 	prof := ""
-	if label == "generated-core" || label == "generated-strings" {
+	if label == "generated-core" || label == "generated-strings" || label == "generated-oneline" {
+		prof = "core-profile:"
+	}
+	if label == "generated-oneline" {
+		prof = "one-line-blocks:"
+	}
+	if false {
 		prof = "core-profile:"
 	}
 	var f1, f2, ex, co string
@@ -396,6 +416,13 @@ func c18Worker(in, out string) {
 			if i%4 == 0 {
 				src = c18Decorate(rng, src, false)
 			}
+		case "generated-oneline":
+			f := gen.Features{Floats: true, Strings: true, Arrays: true, Objects: true, While: true, For: true, Switch: true, StatusReturn: true, BuiltinsCore: true, BuiltinsInterp: true,
+				LogicRhsMayFail: true, EqIntFloat: true, DivZero: true, IndexOOR: true, NestedReturn: true, DeclInBranch: true}
+			g := gen.New(rng, f)
+			prog := g.Program(2 + rng.Intn(7))
+			pat, _ := prog.RoutePath("/t")
+			src = c18OneLineBlocks(rng, prog.Source(pat))
 		case "bytes":
 			if rng.Intn(3) == 0 || len(corpus) == 0 {
 				b := make([]byte, rng.Intn(300))
@@ -436,6 +463,8 @@ func checkC18(tier string) {
 	r.RunBatch(mon.Batch{Worker: "c18", Tag: "generated-core", N: nc, Chunk: (nc + 15) / 16, Parallel: 16, Params: c18Params{Family: "generated-core"}, OnDeath: onDeath, Timeout: 40 * time.Minute})
 	nsx := r.Pick(12000, 400000)
 	r.RunBatch(mon.Batch{Worker: "c18", Tag: "generated-strings", N: nsx, Chunk: (nsx + 15) / 16, Parallel: 16, Params: c18Params{Family: "generated-strings"}, OnDeath: onDeath, Timeout: 40 * time.Minute})
+	nol := r.Pick(6000, 200000)
+	r.RunBatch(mon.Batch{Worker: "c18", Tag: "generated-oneline", N: nol, Chunk: (nol + 15) / 16, Parallel: 16, Params: c18Params{Family: "generated-oneline"}, OnDeath: onDeath, Timeout: 40 * time.Minute})
 	nb := r.Pick(20000, 800000)
 	r.RunBatch(mon.Batch{Worker: "c18", Tag: "bytes", N: nb, Chunk: (nb + 15) / 16, Parallel: 16, Params: c18Params{Family: "bytes"}, OnDeath: onDeath, Timeout: 40 * time.Minute})
 	if r.Counter("L3_checked") < 1000 {
